@@ -105,8 +105,34 @@ fn main() {
                 let init_mode = i % 2 == 0;
                 cfg.unreachable_blocks = rng.chance(1, 3);
                 let mut function = fv::gen::any_function(&mut rng, &cfg, 0x1000);
+                let mut scalars = scalars;
                 if init_mode {
                     initialise(&mut function, &scalars, &mut rng);
+                    // scalars that are NOT initialised at the entry but only assigned later, on some paths, and read
+                    // at most directly behind their assignment: still "no scalar can be read before it is assigned",
+                    // but the sets of assigned scalars differ between the paths that meet at a join
+                    if rng.bool() {
+                        let nb = function.blocks().len();
+                        let x8: Vec<il::Scalar> = scalars.iter().filter(|s| s.bits() == 8).cloned().collect();
+                        for k in 0..rng.range(1, 2) {
+                            let u = il::scalar(format!("late{}", k), 8);
+                            for _ in 0..rng.range(1, 3) {
+                                let b = function.blocks()[rng.below(nb as u64) as usize].index();
+                                let blk = function.block_mut(b).unwrap();
+                                let terminal = blk.instructions().last().map_or(false, |i| i.is_branch());
+                                if terminal {
+                                    continue; // nothing may follow an indirect branch
+                                }
+                                let c: il::Expression = if rng.bool() { il::expr_const(rng.below(4), 8) }
+                                    else { il::Expression::add(il::Expression::Scalar(rng.pick(&x8).clone()), il::expr_const(1, 8)).unwrap() };
+                                blk.assign(u.clone(), c);
+                                if rng.bool() {
+                                    blk.assign(rng.pick(&x8).clone(), il::Expression::Scalar(u.clone()));
+                                }
+                            }
+                            scalars.push(u);
+                        }
+                    }
                 } else if rng.chance(1, 3) {
                     // a path on which nothing has been assigned yet when it reaches a join: the entry
                     // block assigns nothing (its instructions become nops)
